@@ -109,3 +109,23 @@ func vpH_C20_T_slow_update() {
 	vpCover("C20.slow-update")
 	_ = s.e.Stop()
 }
+
+// restart after a stop that gave up waiting: the OnPromote callback of the first run needs 3 s to wind down
+// after its context is cancelled, StopWithContext waits 1 s, and the application starts the election again
+// while that goroutine (and the abandoned wait for it) still exist
+func vpH_C20_T_restart_straggler() {
+	vpSetOpt("race", 1)
+	tm := vpTimings[0]
+	vpCbTemplate = &vpCallbacks{blockOnCtx: true, drain: 3 * time.Second}
+	s := vpLeadingInstance(tm, 0, nil)
+	s.kv.opLeft = 30
+	time.Sleep(tm.H / 2)
+	err := s.e.StopWithContext(vpRootCtx(), StopOptions{Timeout: time.Second})
+	vpAssert("harness.stop-gave-up", err != nil)
+	_ = s.e.Start(vpRootCtx())
+	time.Sleep(5 * time.Second) // the straggler finishes during the second run
+	vpQuiesce()
+	vpCover("C20.restart-straggler")
+	_ = s.e.Stop()
+	vpQuiesce()
+}
